@@ -59,15 +59,41 @@ var faultNames = []string{"put-500", "put-500-once", "put-422", "put-403", "veri
 
 type faultCtl struct {
 	mu        sync.Mutex
-	name      string
+	name      string // fault without its target
+	target    string // oid the fault is restricted to ("" = every object)
 	putSeen   map[string]int
 	batchSeen int
 	seq       *seqCtl // fault-SEQUENCE probe: every answer is a choice point of the running execution (c03_seq_verif_test.go)
 }
 
+// splitFault: a fault name "<fault>@<label>" restricts the fault to the requests that concern the object with that
+// label (the storage PUT of that object, its verify callback, its entry in a batch response); a plain name applies to
+// every object.
+func splitFault(name string) (base, targetOid string) {
+	if i := strings.IndexByte(name, '@'); i >= 0 {
+		oid, ok := objOid[name[i+1:]]
+		if !ok {
+			panic(vx.ToolError{Msg: "unknown object label in fault name " + name})
+		}
+		return name[:i], oid
+	}
+	return name, ""
+}
+
+// targetedFaults: every fault of bases restricted to every object of labels.
+func targetedFaults(bases, labels []string) []string {
+	var r []string
+	for _, b := range bases {
+		for _, l := range labels {
+			r = append(r, b+"@"+l)
+		}
+	}
+	return r
+}
+
 func (f *faultCtl) set(name string) {
 	f.mu.Lock()
-	f.name = name
+	f.name, f.target = splitFault(name)
 	f.seq = nil
 	f.putSeen = map[string]int{}
 	f.batchSeen = 0
@@ -89,6 +115,7 @@ func newServer(fc *faultCtl) *fakelfs.Server {
 	s.Hook = func(s *fakelfs.Server, w http.ResponseWriter, r *http.Request, rec *fakelfs.Recorded) bool {
 		fc.mu.Lock()
 		f := fc.name
+		tgt := fc.target
 		sq := fc.seq
 		fc.mu.Unlock()
 		if sq != nil {
@@ -107,6 +134,7 @@ func newServer(fc *faultCtl) *fakelfs.Server {
 			fc.putSeen[oid]++
 			fc.mu.Unlock()
 			switch {
+			case tgt != "" && oid != tgt: // the fault concerns another object
 			case f == "put-500", f == "put-500-once" && n == 0:
 				apiErr(w, 500, "storage failure")
 				return true
@@ -124,6 +152,9 @@ func newServer(fc *faultCtl) *fakelfs.Server {
 			if f == "verify-fail" {
 				var o fakelfs.BatchObject
 				json.Unmarshal(rec.Body, &o)
+				if tgt != "" && o.Oid != tgt {
+					return false
+				}
 				s.Lock()
 				delete(s.Objects, o.Oid) // the server discards an upload it could not verify
 				s.Unlock()
@@ -136,6 +167,7 @@ func newServer(fc *faultCtl) *fakelfs.Server {
 	s.BatchHook = func(s *fakelfs.Server, req *fakelfs.BatchRequest, resp *fakelfs.BatchResponse) (int, []byte) {
 		fc.mu.Lock()
 		f := fc.name
+		tgt := fc.target
 		nb := fc.batchSeen
 		if req.Operation == "upload" {
 			fc.batchSeen++
@@ -145,7 +177,7 @@ func newServer(fc *faultCtl) *fakelfs.Server {
 		// every response (the push cannot succeed)
 		if strings.HasPrefix(f, "expire-") && req.Operation == "upload" && (nb == 0 || f == "expire-always") {
 			for _, o := range resp.Objects {
-				if a := o.Actions["upload"]; a != nil {
+				if a := o.Actions["upload"]; a != nil && (tgt == "" || o.Oid == tgt) {
 					switch f {
 					case "expire-first-neg":
 						a.ExpiresIn = -1
@@ -159,7 +191,7 @@ func newServer(fc *faultCtl) *fakelfs.Server {
 		}
 		if f == "batch-objerr" && req.Operation == "upload" {
 			for _, o := range resp.Objects {
-				if o.Actions != nil {
+				if o.Actions != nil && (tgt == "" || o.Oid == tgt) {
 					o.Actions = nil
 					o.Error = &fakelfs.ObjError{Code: 422, Message: "object rejected"}
 					break
@@ -191,7 +223,7 @@ func (w *worker) loadServers(st *wstate, fault string) {
 		s.PutCount = map[string]int{}
 		s.Verified = map[string]bool{}
 		s.Requests = nil
-		s.WithVerify = fault == "verify-fail" || fault == "verify-ok" || w.seqVerify
+		s.WithVerify = strings.HasPrefix(fault, "verify-fail") || strings.HasPrefix(fault, "verify-ok") || w.seqVerify
 		s.Unlock()
 	}
 }
